@@ -73,8 +73,9 @@ def run_csr(case):
     subs, ghosts = [], []
     stats = {"subs": 0, "explicit": 0, "padded": 0, "unassigned_vectors": 0, "vectors": 0, "refused_adds": 0,
              "elaborated_before_add": 0, "refused_then_other_interface": 0}
-    for i in range(rnd.randint(0, 5)):
-        saw = rnd.randint(1, aw)
+    extra_subs = rnd2.choice([3, 5, 8]) if rnd2.random() < .06 else 0
+    for i in range(rnd.randint(0, 5) + extra_subs):
+        saw = rnd.randint(1, aw) if not extra_subs else rnd.randint(1, max(1, aw - 3))
         sb = csr.Interface(addr_width=saw, data_width=dw, path=(f"sub{i}",))
         sb.memory_map = MemoryMap(addr_width=saw, data_width=dw)
         _history(rnd2, dec, stats, lambda: csr.Interface(addr_width=saw, data_width=dw, path=(f"old{i}",)), sb.memory_map, 1 << aw,
@@ -159,6 +160,9 @@ def run_wb(case):
     gran = rnd.choice([g for g in (8, 16, 32, 64) if g <= dw])
     gb = int(math.log2(dw // gran))
     aw = rnd.randint(1, 8) if rnd.random() < .95 else 0
+    huge = rnd2.random() < .05
+    if huge:
+        aw = rnd2.choice([40, 54, 60])            # decoders over very large address spaces
     feats = set(f for f in F if rnd.random() < .5)
     al = rnd.choice([0, 0, 1, 2, 3])
     def spelled(fs):
@@ -171,7 +175,8 @@ def run_wb(case):
     stats = {"subs": 0, "sparse": 0, "explicit": 0, "vectors": 0, "nobody_selected": 0, "responses": 0, "feature_mismatch": 0,
              "elaborated_before_add": 0, "refused_then_other_interface": 0}
     maw_dec = max(1, aw + gb)
-    for i in range(rnd.randint(0, 5)):
+    extra_subs = rnd2.choice([3, 5, 8]) if rnd2.random() < .06 else 0        # more than the usual handful of windows
+    for i in range(rnd.randint(0, 5) + extra_subs):
         sparse = rnd.random() < .3
         if sparse:
             sdw = sg = rnd.choice([x for x in (8, 16, 32, 64) if x <= gran])
@@ -232,6 +237,12 @@ def run_wb(case):
     async def tb(ctx):
         for v in range(case["nvec"]):
             adr = (v % (1 << aw)) if aw <= 6 else rnd.randrange(1 << aw)
+            if aw > 12 and subs and rnd.random() < .85:
+                # a sweep is impossible: aim at the windows, their edges and just outside them
+                sb_, _, _, maw_ = rnd.choice(subs)
+                s0 = wins[id(sb_.memory_map)][0] >> gb
+                span = max(1, (1 << maw_) >> gb)
+                adr = max(0, min((1 << aw) - 1, s0 + rnd.choice([0, 1, span - 1, span, -1, rnd.randrange(span)])))
             cyc, stb, we, lock = int(rnd.random() < .8), rnd.getrandbits(1), rnd.getrandbits(1), rnd.getrandbits(1)
             datw, sel = lib.bits(rnd, dw), lib.bits(rnd, selw)
             cti, bte = rnd.choice(CTI), lib.bits(rnd, 2)
@@ -322,11 +333,17 @@ def run_treeflat(case):
     top = Module()
     keep = []
 
+    rnd2 = lib.rng_for(case["seed"], case["idx"], 6616)
+
     def mk_mux(aw_max):
         a = rnd.randint(1, aw_max)
         mm = MemoryMap(addr_width=a, data_width=dw, alignment=rnd.choice([0, 0, 1]))
         regs = []
+        early = rnd2.randint(0, 1) if rnd2.random() < .2 else None
+        emux = None
         for i in range(rnd.randint(1, 3)):
+            if i == early:
+                emux = csr.Multiplexer(mm, shadow_overlaps=rnd2.choice([None, None, 1, 2]))    # registers may follow
             w = rnd.choice([1, dw, dw + 3, 2 * dw, 3 * dw])
             e = El(w, rnd.choice(["r", "w", "rw", "rw"]))
             try:
@@ -335,7 +352,8 @@ def run_treeflat(case):
                 regs.append(e)
             except ValueError:
                 pass
-        mux = csr.Multiplexer(mm, shadow_overlaps=rnd.choice([None, None, 1, 2]))
+        ov = rnd.choice([None, None, 1, 2])
+        mux = emux or csr.Multiplexer(mm, shadow_overlaps=ov)
         top.submodules[f"mux{len(keep)}"] = mux
         keep.append(mux)
         return mux.bus
